@@ -12,5 +12,8 @@ pub mod sync;
 pub mod thread;
 pub mod time;
 
+#[cfg(feature = "rand")]
+pub mod rand;
+
 #[cfg(feature = "tokio")]
 pub mod tokio_net;
